@@ -35,14 +35,11 @@ typedef struct InfoVec {
 } InfoVec;
 struct IndexInfo nondet_IndexInfo(void);
 #define InfoVec_resize(v, n_) do { (v)->size = (n_); (v)->gslot = (struct IndexInfo *)0; } while (0)   /* value-initialised: null pointers */
-/* any other slot: a temporary cell holding a valid pointer to an object with arbitrary content (no heap write) */
-#define InfoVec_at(v, i_) ({ \
-  InfoVec *_v = (v); unsigned long _i = (i_); \
-  __CPROVER_assert(_i < _v->size, "std::vector operator[]: index inside the vector"); \
-  struct IndexInfo **_r; \
-  if (_i == _v->gs) _r = &_v->gslot; \
-  else _r = &(struct IndexInfo *){ &(struct IndexInfo[1]){ nondet_IndexInfo() }[0] }; \
-  _r; })
+/* any other slot: a temporary cell holding a valid pointer to an object with arbitrary content (no heap write).
+ * A plain expression, not a statement expression: the temporaries must outlive the full expression. */
+#define InfoVec_at(v, i_) \
+  (__CPROVER_assert((unsigned long)(i_) < (v)->size, "std::vector operator[]: index inside the vector"), \
+   ((unsigned long)(i_) == (v)->gs) ? &(v)->gslot : &(struct IndexInfo *){ &(struct IndexInfo[1]){ nondet_IndexInfo() }[0] })
 
 /* ---- std::map<IndexInfo, ParticleIndex>: ghost-key model */
 typedef struct InfoPair { struct IndexInfo first; unsigned int second; } InfoPair;
@@ -77,12 +74,23 @@ static inline InfoMapIt InfoMap_find(InfoMap *m, struct IndexInfo *key)        /
 /* ---- ghost state of the monitors */
 struct IndexClassification *g_self;
 unsigned short g_t_orb, g_t_spin;      /* ghost triple = (g_self->Sites.glabel, g_t_orb, g_t_spin) */
-unsigned long g_hits;                   /* number of IndexInfo objects created with the ghost triple */
-unsigned long g_hit_slot;               /* allocation number (= slot) of the most recent one */
-unsigned long g_new_count;              /* number of `new IndexInfo` so far */
-struct IndexInfo g_obj, g_scratch;      /* allocation number gs / all others (never written, never relied upon) */
-long g_obj_pos;                         /* site position the iterator stood on when g_obj was created */
-_Bool g_obj_hash_ok;                    /* g_obj.SiteLabelHash == STRHASH(g_obj.SiteLabel) */
+/* ONE struct, updated by ONE assignment per monitor call (every instrumented write costs a write-set check
+ * per enclosing loop contract) */
+struct Mon {
+  unsigned long hits;          /* number of IndexInfo objects created with the ghost triple */
+  unsigned long hit_slot;      /* allocation number (= slot) of the most recent one */
+  unsigned long new_count;     /* number of `new IndexInfo` so far */
+  struct IndexInfo obj;        /* the object of allocation number gs (fresh: nothing else refers to it) */
+  long obj_pos;                /* position of its site in the site map */
+  _Bool obj_hash_ok;           /* obj.SiteLabelHash == STRHASH(obj.SiteLabel) */
+} g_mon;
+struct IndexInfo g_scratch;    /* every other allocation (never written, content never relied upon) */
+#define g_hits g_mon.hits
+#define g_hit_slot g_mon.hit_slot
+#define g_new_count g_mon.new_count
+#define g_obj g_mon.obj
+#define g_obj_pos g_mon.obj_pos
+#define g_obj_hash_ok g_mon.obj_hash_ok
 
 //@function Pomerol::IndexClassification::IndexInfo::IndexInfo(std::__cxx11::basic_string<char, std::char_traits<char>, std::allocator<char> > const&, unsigned short, unsigned short) as IndexInfo_mk_ctor3
 //@end
@@ -92,31 +100,32 @@ _Bool g_obj_hash_ok;                    /* g_obj.SiteLabelHash == STRHASH(g_obj.
 //@end
 
 #define SM (&g_self->Sites)
-#define GT_VALID (SM->gk >= 0 && g_t_orb < SM_orb[SM->gk] && g_t_spin < SM_spin[SM->gk])
+#define GT_VALID (SM->gk >= 0 && g_t_orb < SM_orb(SM->gk) && g_t_spin < SM_spin(SM->gk))
 /* `new IndexInfo(label, orbital, spin)`: allocator model + monitor (soundness: only valid triples of the site
  * the iterator stands on are created; completeness: counts the creations of the ghost triple) */
 struct IndexInfo *IndexInfo_new3(label_t l, unsigned short o, unsigned short s)
 {
   SiteMap *m = SM; InfoVec *v = &g_self->IndicesToInfo;
-  long k = SITEPOS(l);
-  __CPROVER_assert(0 <= k && k < m->n && l == SM_label[k], "C18: an index is created for a site of the lattice");
-  __CPROVER_assert(o < SM_orb[k] && s < SM_spin[k], "C18: every index holds a valid (orbital, spin) of its site");
+  __CPROVER_assert(0 <= SITEPOS(l) && SITEPOS(l) < m->n && l == SM_label(SITEPOS(l)), "C18: an index is created for a site of the lattice");
+  __CPROVER_assert(o < SM_orb(SITEPOS(l)) && s < SM_spin(SITEPOS(l)), "C18: every index holds a valid (orbital, spin) of its site");
   __CPROVER_assert(g_new_count < v->size, "C18: no more indices are created than IndexSize");
-  _Bool is_gs = (g_new_count == v->gs);
-  if (is_gs) { g_obj = IndexInfo_mk_ctor3(l, o, s); g_obj_pos = k; g_obj_hash_ok = (g_obj.SiteLabelHash == STRHASH(l)); REACH("new_ghost_slot"); }
-  if (l == m->glabel && o == g_t_orb && s == g_t_spin) { g_hits++; g_hit_slot = g_new_count; REACH("new_ghost_triple"); }
-  g_new_count++;
-  return is_gs ? &g_obj : &g_scratch;      /* g_scratch: content never relied upon */
+  struct Mon t = g_mon;
+  _Bool is_gs = (t.new_count == v->gs);
+  if (is_gs) { t.obj = IndexInfo_mk_ctor3(l, o, s); t.obj_pos = SITEPOS(l); t.obj_hash_ok = (t.obj.SiteLabelHash == STRHASH(l)); REACH("new_ghost_slot"); }
+  if (l == m->glabel && o == g_t_orb && s == g_t_spin) { t.hits++; t.hit_slot = t.new_count; REACH("new_ghost_triple"); }
+  t.new_count++;
+  g_mon = t;
+  return is_gs ? &g_mon.obj : &g_scratch;
 }
 
 #define M (&self->Sites)
 #define V (&self->IndicesToInfo)
 #define MAP (&self->InfoToIndices)
-#define ORB(k) ((unsigned long)SM_orb[k])
-#define SPIN(k) ((unsigned long)SM_spin[k])
+#define ORB(k) ((unsigned long)SM_orb(k))
+#define SPIN(k) ((unsigned long)SM_spin(k))
 #define OBJ_IS_GT (g_obj.SiteLabel == M->glabel && g_obj.Orbital == g_t_orb && g_obj.Spin == g_t_spin)
-#define OBJ_VALID (0 <= g_obj_pos && g_obj_pos < M->n && g_obj.SiteLabel == SM_label[g_obj_pos] && \
-                   g_obj.Orbital < SM_orb[g_obj_pos] && g_obj.Spin < SM_spin[g_obj_pos] && g_obj_hash_ok)
+#define OBJ_VALID (0 <= g_obj_pos && g_obj_pos < M->n && g_obj.SiteLabel == SM_label(g_obj_pos) && \
+                   g_obj.Orbital < SM_orb(g_obj_pos) && g_obj.Spin < SM_spin(g_obj_pos) && g_obj_hash_ok)
 #define OBJ_EQUIV_KEY (g_obj.SiteLabelHash == MAP->g.first.SiteLabelHash && g_obj.Orbital == MAP->g.first.Orbital && g_obj.Spin == MAP->g.first.Spin)
 /* facts that every construction loop maintains */
 #define INV_COMMON \
@@ -124,7 +133,13 @@ struct IndexInfo *IndexInfo_new3(label_t l, unsigned short o, unsigned short s)
    (V->gs < currentIndex ? (V->gslot == &g_obj && OBJ_VALID) : V->gslot == (struct IndexInfo *)0) && \
    (g_hits == 1 ==> g_hit_slot < currentIndex) && \
    (V->gs < currentIndex ==> (OBJ_IS_GT == (g_hits == 1 && g_hit_slot == V->gs))))
-#define ASSIGNS_COMMON currentIndex, g_hits, g_hit_slot, g_new_count, g_obj, g_obj_pos, g_obj_hash_ok, self->IndicesToInfo.gslot
+#define ASSIGNS_COMMON currentIndex, g_mon, self->IndicesToInfo.gslot
+#ifdef SM_NO_SQ
+#define INV_L1_SQ 1
+#else   /* layers above the largest spin count are empty */
+#define INV_L1_SQ ((MaxSpinSize <= 0 ==> SM_sq0[0] == SM_sq0[it1.pos]) && (MaxSpinSize <= 1 ==> SM_sq1[0] == SM_sq1[it1.pos]) && \
+                   (MaxSpinSize <= 2 ==> SM_sq2[0] == SM_sq2[it1.pos]) && (MaxSpinSize <= 3 ==> SM_sq3[0] == SM_sq3[it1.pos]))
+#endif
 #define GHOST01(before) ((g_hits == 0 && (before)) || (g_hits == 1 && !(before)))
 
 //@function Pomerol::IndexClassification::prepare(bool) as IndexClassification_prepare
@@ -142,7 +157,7 @@ __CPROVER_requires(MAP->g.first.SiteLabel == M->glabel && MAP->g.first.Orbital =
                    MAP->g.first.SiteLabelHash == STRHASH(M->glabel))
 __CPROVER_requires(g_hits == 0 && g_new_count == 0)
 __CPROVER_assigns(self->IndexSize, self->IndicesToInfo.size, self->IndicesToInfo.gslot, self->InfoToIndices, VERIF_thrown,
-                  g_hits, g_hit_slot, g_new_count, g_obj, g_obj_pos, g_obj_hash_ok)
+                  g_mon)
 __CPROVER_ensures(!VERIF_thrown)
 /* C18: IndexSize = SUM orbitals*spins */
 __CPROVER_ensures((unsigned long)self->IndexSize == SM_suf[0])
@@ -166,8 +181,7 @@ __CPROVER_loop_invariant(it1.m == M && 0 <= it1.pos && it1.pos <= M->n)
 __CPROVER_loop_invariant((unsigned long)self->IndexSize + SM_suf[it1.pos] == SM_suf[0] && SM_suf[it1.pos] <= SM_TOTAL_MAX)
 __CPROVER_loop_invariant((M->gk >= 0 && it1.pos > M->gk) ==> MaxSpinSize >= SPIN(M->gk))
 __CPROVER_loop_invariant(M->smax_on ==> MaxSpinSize <= SM_SMAX)
-__CPROVER_loop_invariant(M->smax_on ==> ((MaxSpinSize <= 0 ==> SM_sq0[0] == SM_sq0[it1.pos]) && (MaxSpinSize <= 1 ==> SM_sq1[0] == SM_sq1[it1.pos]) &&
-                                         (MaxSpinSize <= 2 ==> SM_sq2[0] == SM_sq2[it1.pos]) && (MaxSpinSize <= 3 ==> SM_sq3[0] == SM_sq3[it1.pos])))
+__CPROVER_loop_invariant(INV_L1_SQ)
 __CPROVER_decreases(M->n - it1.pos)
 //@loop 2
 __CPROVER_assigns(z, ASSIGNS_COMMON)
@@ -182,7 +196,7 @@ __CPROVER_loop_invariant((unsigned long)currentIndex + SM_SQ(z, it1.pos) + SM_SQ
 __CPROVER_loop_invariant((GT_VALID && z == g_t_spin) ? GHOST01(it1.pos <= M->gk) : g_hits == __CPROVER_loop_entry(g_hits))
 __CPROVER_decreases(M->n - it1.pos)
 //@loop 4
-__CPROVER_assigns(i, ASSIGNS_COMMON)
+__CPROVER_assigns(i, SM_IT_CURSOR(it1), ASSIGNS_COMMON)
 __CPROVER_loop_invariant(i <= ORB(it1.pos) && INV_COMMON)
 __CPROVER_loop_invariant((unsigned long)currentIndex + (ORB(it1.pos) - i) + SM_SQ(z, it1.pos + 1) + SM_SQTAIL(0, z + 1) == self->IndexSize)
 __CPROVER_loop_invariant((GT_VALID && z == g_t_spin && it1.pos == M->gk) ? GHOST01(i <= g_t_orb) : g_hits == __CPROVER_loop_entry(g_hits))
@@ -194,13 +208,13 @@ __CPROVER_loop_invariant((unsigned long)currentIndex + SM_suf[it1.pos] == self->
 __CPROVER_loop_invariant(GT_VALID ? GHOST01(it1.pos <= M->gk) : g_hits == 0)
 __CPROVER_decreases(M->n - it1.pos)
 //@loop 6
-__CPROVER_assigns(i, ASSIGNS_COMMON)
+__CPROVER_assigns(i, SM_IT_CURSOR(it1), ASSIGNS_COMMON)
 __CPROVER_loop_invariant(i <= ORB(it1.pos) && INV_COMMON)
 __CPROVER_loop_invariant((unsigned long)currentIndex + (ORB(it1.pos) - i) * SPIN(it1.pos) + SM_suf[it1.pos + 1] == self->IndexSize)
 __CPROVER_loop_invariant((GT_VALID && it1.pos == M->gk) ? GHOST01(i <= g_t_orb) : g_hits == __CPROVER_loop_entry(g_hits))
 __CPROVER_decreases(ORB(it1.pos) - i)
 //@loop 7
-__CPROVER_assigns(z, ASSIGNS_COMMON)
+__CPROVER_assigns(z, SM_IT_CURSOR(it1), ASSIGNS_COMMON)
 __CPROVER_loop_invariant(z <= SPIN(it1.pos) && INV_COMMON)
 __CPROVER_loop_invariant((unsigned long)currentIndex + (SPIN(it1.pos) - z) + (ORB(it1.pos) - i - 1) * SPIN(it1.pos) + SM_suf[it1.pos + 1] == self->IndexSize)
 __CPROVER_loop_invariant((GT_VALID && it1.pos == M->gk && i == g_t_orb) ? GHOST01(z <= g_t_spin) : g_hits == __CPROVER_loop_entry(g_hits))
@@ -216,21 +230,21 @@ __CPROVER_decreases(self->IndexSize - i)
 //@end
 
 /* lemma L1 of stubs/sitemap.h (SUM_z sq_z[0] == suf[0]), proved by induction */
-//@harness h_lemma_sitemap_sqsum enforce=SiteMap_lemma_sqsum props=C18 min_obl=100 timeout=900 reach=1
+//@harness h_lemma_sitemap_sqsum enforce=SiteMap_lemma_sqsum props=C18 min_obl=100 timeout=900 reach=1 objbits=8
 void h_lemma_sitemap_sqsum(void)
 {
   SiteMap *m;
   SiteMap_lemma_sqsum(m);
   REACH("exit");
 }
-//@harness h_IC_prepare_sites enforce=IndexClassification_prepare props=C18,C17 min_obl=100 timeout=900 reach=3
+//@harness h_IC_prepare_sites enforce=IndexClassification_prepare props=C18,C17 min_obl=100 timeout=900 reach=3 defs=-DSM_NO_SQ objbits=8
 void h_IC_prepare_sites(void)
 {
   struct IndexClassification *p;
   IndexClassification_prepare(p, 0);     /* default ordering: site-major */
   REACH("exit");
 }
-//@harness h_IC_prepare_spins enforce=IndexClassification_prepare props=C18,C17 min_obl=100 timeout=900 reach=3
+//@harness h_IC_prepare_spins enforce=IndexClassification_prepare props=C18,C17 min_obl=100 timeout=900 reach=3 objbits=8
 void h_IC_prepare_spins(void)
 {
   struct IndexClassification *p;
